@@ -1,3 +1,6 @@
 import GSProofs.C13
 import GSProofs.C14
 import GSProofs.C18
+import GSProofs.C08
+import GSProofs.C19
+import GSProofs.C03
